@@ -6,7 +6,7 @@ The computed strings/numbers themselves are run-time values of std / dependency 
                      primitive (to_upper really calls str::to_uppercase, parse_int really parses an i64, ...)
   R-C18-elementwise  every element-wise function pushes exactly one result per input element on every non-error path;
                      unresolved entries and values of unsupported kinds give None (skipped), never a made-up value
-  R-C18-parse-errors a failing parse in parse_int / parse_float / parse_boolean / parse_char / parse_epoch returns an error,
+  R-C18-parse-errors a failing parse in parse_int / parse_float / parse_boolean / parse_char / parse_epoch / json_parse returns an error,
                      never a default or wrong value; the produced kind is the documented one
   R-C18-count        count counts exactly the entries that are not UnResolved
 """
@@ -41,7 +41,7 @@ SPEC = [
 KINDS = {
     "strings::to_upper": {"String": "String"}, "strings::to_lower": {"String": "String"},
     "strings::url_decode": {"String": "String|None"}, "strings::substring": {"String": "String|None"},
-    "strings::regex_replace": {"String": "E|String"}, "strings::json_parse": {"String": "*"},
+    "strings::regex_replace": {"String": "E|String"}, "strings::json_parse": {"String": "E|*"},
     "converters::parse_int": {"String": "E|Int", "Int": "Int", "Float": "Int", "Char": "E|Int"},
     "converters::parse_float": {"String": "E|Float", "Int": "Float", "Float": "Float", "Char": "E|Float"},
     "converters::parse_bool": {"String": "E|Bool", "Bool": "Bool"},
@@ -291,7 +291,10 @@ def elementwise(ctx, cr):
             outs.discard(None)
             exp = kinds.get(pk, "None")
             allowed = set(exp.split("|"))
-            if "E" in allowed:
+            if exp == "E|*":
+                okset = "E" in outs and "None" not in outs and bool(outs - {"E"})
+                ctx.ob(prule, "%s:%s:%s" % (prule, impl, pk), okset, "a %s element gives %s; documented: the parsed value on success and an ERROR when the text is not JSON/YAML (never skipped, never a default)" % (pk, sorted(map(str, outs))), fn=f)
+            elif "E" in allowed:
                 allowed.discard("E")
                 okset = outs <= (allowed | {"E"}) and ("E" in outs) and bool(outs & allowed)
                 ctx.ob(prule, "%s:%s:%s" % (prule, impl, pk), okset, "a %s element gives %s; documented: %s on success and an ERROR when it cannot be converted (never a default value)" % (pk, sorted(outs), sorted(allowed)), fn=f,
